@@ -19,6 +19,44 @@ func runC14(c *Ctx) {
 	c.R.Rule("W-workingset", "the per-block working set of UtxoIndex (address -> height -> list) loads a bucket from the database only on the absent arm of the working-set lookup, and the lookup, the database fetch and the store back use the same address and the same height key")
 	c.R.Rule("M-mirror", "the index manager hands every connected / disconnected block to every enabled index and fails when one fails; UtxoIndex.ConnectBlock and DisconnectBlock skip input processing under the same conditions")
 	const pk = "blockchain/indexers"
+	c.R.Rule("M-blockid", "TxIndex.ConnectBlock advances the internal block id by one on success and TxIndex.DisconnectBlock takes it back by one on every successful return (ids stay contiguous, which the start-up search for the highest id relies on)")
+	for _, it := range []struct {
+		name string
+		op   token.Token
+	}{{"ConnectBlock", token.ADD}, {"DisconnectBlock", token.SUB}} {
+		f := c.fn(pk, "TxIndex", it.name)
+		if f == nil {
+			continue
+		}
+		var stores []ssa.Instruction
+		okShape := false
+		for _, b := range f.Blocks {
+			for _, in := range b.Instrs {
+				st, ok := in.(*ssa.Store)
+				if !ok || !ssau.IsFieldOf(st.Addr, "TxIndex", "curBlockID") {
+					continue
+				}
+				stores = append(stores, st)
+				if bo, ok := ssau.Unwrap(st.Val).(*ssa.BinOp); ok && bo.Op == it.op && isConstInt(1)(bo.Y) && ssau.IsFieldOf(ssau.Unwrap(bo.X), "TxIndex", "curBlockID") {
+					okShape = true
+				}
+			}
+		}
+		okAll := len(stores) > 0 && okShape
+		if okAll {
+			cut := ssau.NewCut()
+			for _, st := range stores {
+				cut.AddInstr(st)
+			}
+			r := ssau.ReachFromEntry(f, cut)
+			for _, ret := range ssau.Returns(f) {
+				if r.Instr(ret) && !c.failingReturn(f, ret) {
+					okAll = false
+				}
+			}
+		}
+		c.R.Check("M-blockid", "TxIndex."+it.name+"|curBlockID "+it.op.String()+" 1 on success", okAll, c.pos(f.Pos()), "every successful return is preceded by curBlockID "+it.op.String()+"= 1")
+	}
 	fetchP := callPred(R{pk, "", "DBFetchUtxoIndexEntryByHeight"})
 	for _, name := range []string{"ConnectBlock", "DisconnectBlock"} {
 		f := c.fn(pk, "UtxoIndex", name)
